@@ -17,6 +17,44 @@ ALLOWED_AXIOMS = {
     "FunctionalExtensionality.functional_extensionality_dep",
     "Classical_Prop.classic",
 }
+# theorems about the binary64 instance itself (property files Properties/CxxF.v) additionally rest on the standard
+# library's specification of primitive floats (Floats.FloatAxioms) and on the primitive types and operations, which
+# Print Assumptions lists as well
+ALLOWED_FLOAT_AXIOMS = ALLOWED_AXIOMS | {
+    "FloatAxioms.Prim2SF_valid", "FloatAxioms.SF2Prim_Prim2SF", "FloatAxioms.Prim2SF_SF2Prim",
+    "FloatAxioms.add_spec", "FloatAxioms.sub_spec", "FloatAxioms.mul_spec", "FloatAxioms.div_spec",
+    "FloatAxioms.sqrt_spec", "FloatAxioms.opp_spec", "FloatAxioms.abs_spec",
+    "FloatAxioms.ltb_spec", "FloatAxioms.leb_spec", "FloatAxioms.eqb_spec", "FloatAxioms.compare_spec",
+    "FloatAxioms.classify_spec", "FloatAxioms.of_uint63_spec", "FloatAxioms.normfr_mantissa_spec",
+    "FloatAxioms.frshiftexp_spec", "FloatAxioms.ldshiftexp_spec", "FloatAxioms.next_up_spec", "FloatAxioms.next_down_spec",
+}
+
+
+# Print Assumptions prints the shortest unambiguous name, so with Floats imported the same constants appear without
+# their module prefix; the primitive types and operations of PrimFloat / PrimInt63 are listed as well
+_FLOAT_BASES = {a.split(".")[-1] for a in ALLOWED_FLOAT_AXIOMS if a.startswith("FloatAxioms.")}
+_PRIMITIVES = {"float", "int", "add", "sub", "mul", "div", "sqrt", "opp", "abs", "ltb", "leb", "eqb", "compare", "classify",
+               "of_uint63", "normfr_mantissa", "frshiftexp", "ldshiftexp", "next_up", "next_down",
+               "lsl", "lsr", "land", "lor", "lxor", "mod", "addc", "subc", "mulc", "head0", "tail0", "asr", "divs", "mods",
+               "addcarryc", "subcarryc", "diveucl", "diveucl_21", "addmuldiv", "lebs", "ltbs", "compares"}
+
+
+def _allowed(name, float_file):
+    if name in ALLOWED_AXIOMS:
+        return True
+    if float_file:
+        if name in ALLOWED_FLOAT_AXIOMS or name.startswith(("PrimFloat.", "PrimInt63.")):
+            return True
+        if "." not in name or name.startswith("FloatAxioms."):
+            base = name.split(".")[-1]
+            return base in _FLOAT_BASES or base in _PRIMITIVES
+    return False
+
+
+def _is_primitive(name):
+    return name.startswith(("PrimFloat.", "PrimInt63.")) or ("." not in name and name in _PRIMITIVES)
+
+
 FORBIDDEN = re.compile(
     r"\b(Admitted|admit|Axiom|Axioms|Parameter|Parameters|Conjecture|Conjectures|Hypothesis|Hypotheses|"
     r"Variable|Variables|bypass_check|native_compute)\b|Unset\s+Guard|Admit\s+Obligations|type-in-type|"
@@ -69,13 +107,30 @@ def build_model(timeout=3000):
 
 
 def proof_step(pid, thorough=False, timeout=3000):
-    """Compile Properties/<pid>.v (always recompiled so that Print Assumptions is printed),
+    """Properties/<pid>.v (theorems over the reals) and, where it exists, Properties/<pid>F.v (theorems about the
+    binary64 instance itself, with the float allowlist)."""
+    res = _proof_file(pid, pid, thorough, timeout, float_file=False)
+    if os.path.exists(os.path.join(COQDIR, "Properties", "%sF.v" % pid)):
+        r2 = _proof_file(pid, pid + "F", False, timeout, float_file=True)
+        res["ok"] = res["ok"] and r2["ok"]
+        res["problems"] += r2["problems"]
+        res["theorems"] += r2["theorems"]
+        res["obligations"] += r2["obligations"]
+        res["discharged"] += r2["discharged"]
+        res["axioms"] = sorted(set(res["axioms"]) | set(r2["axioms"]))
+        res["checker_cmd"] = res.get("checker_cmd", "") + "; " + r2.get("checker_cmd", "")
+        res["wall_s"] = res.get("wall_s", 0) + r2.get("wall_s", 0)
+    return res
+
+
+def _proof_file(pid, fname, thorough, timeout, float_file):
+    """Compile Properties/<fname>.v (always recompiled so that Print Assumptions is printed),
     check axioms against the allowlist, grep for forbidden constructs, check the pins."""
     t0 = time.time()
     res = {"ok": True, "problems": [], "theorems": [], "axioms": [], "obligations": 0, "discharged": 0}
     ensure_makefile()
-    rel = "Properties/%s.vo" % pid
-    src = os.path.join(COQDIR, "Properties", "%s.v" % pid)
+    rel = "Properties/%s.vo" % fname
+    src = os.path.join(COQDIR, "Properties", "%s.v" % fname)
     if not os.path.exists(src):
         res["ok"] = False
         res["problems"].append("no property file %s" % src)
@@ -125,8 +180,9 @@ def proof_step(pid, thorough=False, timeout=3000):
     allax = set()
     discharged = 0
     for name, axs in zip(printed, blocks):
-        bad = [a for a in axs if a not in ALLOWED_AXIOMS]
-        allax.update(axs)
+        bad = [a for a in axs if not _allowed(a, float_file)]
+        allax.update(("FloatAxioms." + a if (float_file and "." not in a and a in _FLOAT_BASES) else a)
+                     for a in axs if not (float_file and _is_primitive(a)))
         if bad:
             res["ok"] = False
             res["problems"].append("theorem %s depends on non-allowlisted axioms %s" % (name, bad))
@@ -147,11 +203,11 @@ def proof_step(pid, thorough=False, timeout=3000):
     except Exception:
         pins = {}
     h = hashlib.sha256(open(src, "rb").read()).hexdigest()
-    if pins.get(pid) != h:
+    if pins.get(fname) != h:
         res["ok"] = False
-        res["problems"].append("property file %s does not match its pinned hash (statements changed?)" % pid)
+        res["problems"].append("property file %s does not match its pinned hash (statements changed?)" % fname)
     if thorough and res["ok"]:
-        q = subprocess.run(["coqchk", "-silent", "-o", "-Q", COQDIR, "Cfr", "Cfr.Properties.%s" % pid],
+        q = subprocess.run(["coqchk", "-silent", "-o", "-Q", COQDIR, "Cfr", "Cfr.Properties.%s" % fname],
                            capture_output=True, text=True, timeout=timeout)
         res["coqchk"] = (q.stdout + q.stderr)[-3000:]
         if q.returncode != 0:
@@ -165,7 +221,7 @@ def repin():
     pins = {}
     d = os.path.join(COQDIR, "Properties")
     for f in sorted(os.listdir(d)):
-        if re.fullmatch(r"C\d+\.v", f):
+        if re.fullmatch(r"C\d+F?\.v", f):
             pins[f[:-2]] = hashlib.sha256(open(os.path.join(d, f), "rb").read()).hexdigest()
     json.dump(pins, open(PINS, "w"), indent=1, sort_keys=True)
     return pins
@@ -462,6 +518,76 @@ def rounding_explains(cb, dis, rel, name="condp", extra_imports="", multi_names=
         return False, "the prefix runs agree with the model although the original operation did not"
     return True, ("from budget %d on the implementation follows a one-ulp perturbation of the model (%s) instead of the model; "
                   "it never leaves the set of perturbed models" % (first_diff, ",".join(sorted(used))))
+
+
+def thread_difference_explained(cb, k_op, rel, name="condt", extra_imports="", multi_names=None):
+    """A solve with k threads (op k_op of the case) returned something else than the same solve with one thread.
+    The property allows differences "up to floating-point summation order"; regret matching amplifies such a
+    difference to O(1) where a cumulative regret is zero up to rounding.  The solve is repeated for every prefix
+    budget with 1 and with k threads on the implementation, and on the model and its four jittered instances.
+    Let t_k be the first prefix at which the k-thread run leaves the 1-thread run (T if the repetition does not
+    leave it at all: the difference depends on the schedule).  The difference is explained iff some jittered model
+    leaves the model at a prefix <= t_k: the specified algorithm itself is rounding-sensitive no later than that.
+    A lost update, a stale cache or a wrong frontier separates the runs where the jittered models still agree."""
+    from . import coqrun, harness as H
+    from .common import b2f, deep_close
+    from .ops import CaseBuilder, compare_op
+    o = cb.ops[k_op]
+    if o.get("op") != "solve":
+        return False, "not a solve"
+    T = int(o["iters"])
+    if T < 1 or T > 400:
+        return False, "budget outside 1..400"
+    prefixes = list(range(1, T + 1)) if T <= 40 else sorted(set(list(range(1, 21)) + [int(round(20 + (T - 20) * i / 20.0)) for i in range(1, 21)]))
+    params = o["params"]
+    if isinstance(params, list):
+        params = [b2f(x) for x in params]
+    c2 = CaseBuilder(cb.cid, cb.tree, dict(cb.meta))
+    idx = []
+    for t in prefixes:
+        a = c2.solve(o["method"], t, b2f(o["max_reg"]), 1, params, o.get("draws"))
+        c2.named(a)
+        b_ = c2.solve(o["method"], t, b2f(o["max_reg"]), o["threads"], params, o.get("draws"), yield_seed=o.get("yield_seed", 0))
+        c2.named(b_)
+        idx.append(len(c2.ops) - 4)
+    variants = ("Exec", "ExecU", "ExecD", "ExecJ", "ExecK")
+    try:
+        build_model_j()
+        impl = H.run_cases(name, [c2.case()]).get(cb.cid, {})
+        runs = {}
+        for mod_ in variants:
+            r = coqrun.run_shards(name + "_" + mod_, [c2.coq()], extra_imports=extra_imports, exec_module=mod_).get(cb.cid)
+            if r is None:
+                return False, "model run failed (%s)" % mod_
+            runs[mod_] = r[1]
+    except Exception as e:
+        return False, "exception %s" % e
+    if "ops" not in impl:
+        return False, "no result on the prefix case"
+
+    def fl(o_solve, o_named):
+        out = []
+        if "ok" in o_solve:
+            out += [b2f(x) for x in o_solve["ok"][:3]]
+        if "ok" in o_named:
+            for pl in o_named["ok"]:
+                for it in sorted(pl["items"], key=lambda it: it[1]):
+                    out.append((it[1], tuple(a for a, _ in it[3])))
+                    out += [b2f(p) for _, p in it[3]]
+        return out
+    t_k = None
+    t_jit = None
+    for t, i in zip(prefixes, idx):
+        ops = impl["ops"]
+        if t_k is None and deep_close(fl(ops[i], ops[i + 1]), fl(ops[i + 2], ops[i + 3]), rel) is not None:
+            t_k = t
+        if t_jit is None and any(deep_close(runs["Exec"][i + off], runs[m][i + off], rel / 10) is not None
+                                 for m in variants[1:] for off in (0, 1)):
+            t_jit = t
+    limit = t_k if t_k is not None else T
+    info = ("first budget at which the repetition with %s threads leaves the one-thread run: %s; first budget at which a "
+            "one-ulp perturbation of the model leaves the model: %s" % (o["threads"], t_k, t_jit))
+    return (t_jit is not None and t_jit <= limit), info
 
 
 def ill_conditioned(cb, impl, rel, name="cond", trials=4, eps=1e-13):
